@@ -57,6 +57,8 @@ type PolicyPlan struct {
 	// Churn: addresses (known candidates and unreachable ones) are handed to AddPeer again and
 	// again while few dial slots and a tiny address list keep them queued (bounded priority set).
 	Churn bool `json:"churn,omitempty"`
+	// ExtAgain: the scripted peers send their extension handshake a second time.
+	ExtAgain bool `json:"ext_again,omitempty"`
 }
 
 type ipRule struct{ first, last uint32 }
@@ -253,6 +255,9 @@ func RunPolicy(env *Env, plan *PolicyPlan) {
 			if c.Kind == "corrupt" {
 				b.CorruptP = 1
 			}
+			if plan.ExtAgain {
+				b.ExtAgain = 2 * time.Second
+			}
 			a := &PeerActor{Spec: PeerSpec{Name: c.Name, B: b, Mode: "listen"}, Host: hostAt(c.Name, "peer", c.IP), T: T, Seed: env.R.Uint64(), SutAddr: sutAddr}
 			if c.Via == "incoming" {
 				a.Spec.Mode = "dial"
@@ -296,6 +301,9 @@ func RunPolicy(env *Env, plan *PolicyPlan) {
 		b.Have = refbt.FullBits(T.NumPieces)
 		b.Have.Clear(0)
 		b.Announce = "bitfield"
+		if plan.ExtAgain {
+			b.ExtAgain = 3 * time.Second
+		}
 		var rounds [][]string
 		var cur []string
 		last := time.Duration(0)
@@ -450,7 +458,8 @@ func RunPolicy(env *Env, plan *PolicyPlan) {
 		dialled[d.To] = true
 		isTracker := false
 		for _, ta := range trackers {
-			if ta.Host.IP == host {
+			// (a candidate peer may share its IP with a tracker: the tracker is its port 6969)
+			if ta.Host.IP == host && port == "6969" {
 				isTracker = true
 			}
 		}
@@ -685,6 +694,7 @@ func init() {
 			k.PrivateUserAgent = simrt.Pick(r, []string{"", "PrivateUA/1.0"})
 			pp.Magnet = r.Chance(0.2)
 		}
+		pp.ExtAgain = r.Chance(0.3)
 		if r.Chance(0.4) {
 			pp.Churn = true
 			k.MaxPeerAddresses = r.Range(2, 6)
